@@ -93,7 +93,7 @@ theorem effects_notFin (H : Body → String) (s : State) (o : OpEv) (h : ∀ n n
 /-- the log after one primitive -/
 theorem applyPrim_log (s : State) (p : Prim) :
     (applyPrim s p).disk.log = (match p with | .logAppend r => s.disk.log ++ [r] | _ => s.disk.log) := by
-  cases p <;> simp only [applyPrim, applyDisk] <;> (try split) <;> rfl
+  cases p <;> simp only [applyPrim, applyDisk] <;> (try split) <;> (try split) <;> rfl
 
 theorem applyPrim_log_notFin (s : State) (p : Prim) (h : p.isFin = false) :
     (applyPrim s p).disk.log = s.disk.log := by
